@@ -101,6 +101,20 @@ func init() {
 				}
 			}
 		})
+		// a return inside an INNER output block: the text and values that block had produced before the return
+		// stay in the output, in source order, followed by the returned value; nothing after the return is output
+		for _, t := range [][2]string{
+			{`<%= if (true) { %>A<%= if (true) { %>B<% return 1 %><% } %>C<% } %>D`, "AB1D"}, {`<%= if (true) { %>A<%= 2 %><%= if (true) { %>B<%= 3 %><% return "r" %>x<% } %>C<% } %>D`, "A2B3rD"},
+			{`<%= for (i) in [1, 2] { %>[<%= if (i == 1) { %>one<% return "!" %><% } %>]<% } %>|`, "[one![]|"}, {`<%= if (true) { %>A<% return 1 %>B<% } %>C`, "A1C"}, {`<%= if (true) { %><%= if (true) { %><%= if (true) { %>deep<%= 1 %><% return 2 %><% } %>x<% } %>y<% } %>z`, "deep12z"},
+			{`<%= blk() { %>A<%= if (true) { %>B<% return 1 %><% } %>C<% } %>D`, "[AB1]D"},
+		} {
+			c := RCase{Tmpl: t[0], Binds: []Bind{{"blk", vGo(103)}}}
+			o := e.addRenderCase("return-in-inner-block", c)
+			e.Distinct(t[0])
+			if o.Class != "OK" || o.Out != t[1] {
+				e.Violate("c02-concat", fmt.Sprintf("%s: rendered %q (%s %s), want %q", t[0], o.Out, o.Class, firstLine(o.Msg), t[1]), map[string]interface{}{"case": c, "observed": o})
+			}
+		}
 		// text and values at every level of DEEP nesting (output blocks inside output blocks, loops inside
 		// loops, a template function that calls itself): nothing is dropped however deep it stands
 		for _, depth := range []int{1, 2, 8, 15, 16, 17, 18, 20, 24, 33, 40} {
